@@ -1,6 +1,7 @@
 CONSTANTS MaxSteps = 10
           Stride = 1
           PoolStride = 5
+          ZStride = 3
           Gen = TRUE
           Form = "free"
           Memo = "none"
